@@ -30,7 +30,7 @@ def build_all(report):
 
 def mk(rng, **kw):
     sc = dict(seed=rng.u64(), mode=1, S=64, win_o=0, win_t=64, event_flags=0, task_flags=0, sfio=1, timeout_ms=0, on_timeout=0,
-              on_eof_ret=0, every_read_reset=0, stop_after=0, close_mode=1, quiesce_ms=20, wait_done=1, pause_after=0, drain_chunk=4096, drain_gap_us=0,
+              on_eof_ret=0, every_read_reset=0, stop_after=0, close_mode=1, quiesce_ms=20, wait_done=1, pause_after=0, use_tcp=0, drain_chunk=4096, drain_gap_us=0,
               drain_stop_after=0, sndbuf=0, nclients=0, payload=b"", frags=[], family="x")
     sc.update(kw)
     return sc
@@ -40,7 +40,7 @@ def encode(sc):
     w = W().u64(sc["seed"]).u8(sc["mode"]).u32(sc["S"]).u32(sc["win_o"]).u32(sc["win_t"])
     w.u8(sc["event_flags"]).u8(sc["task_flags"]).u8(sc["sfio"]).u32(sc["timeout_ms"])
     w.u8(sc["on_timeout"]).u8(sc["on_eof_ret"]).u8(sc["every_read_reset"]).u32(sc["stop_after"])
-    w.u8(sc["close_mode"]).u32(sc["quiesce_ms"]).u8(sc["wait_done"]).u32(sc["pause_after"])
+    w.u8(sc["close_mode"]).u32(sc["quiesce_ms"]).u8(sc["wait_done"]).u32(sc["pause_after"]).u8(sc["use_tcp"])
     w.u32(sc["drain_chunk"]).u32(sc["drain_gap_us"]).u32(sc["drain_stop_after"]).u32(sc["sndbuf"]).u16(sc["nclients"])
     w.blob(sc["payload"]).u16(len(sc["frags"]))
     for n, gap in sc["frags"]:
@@ -83,6 +83,13 @@ def gen_scenarios(tier, seed):
         out.append(mk(rng, family="read-dispatch-pause", S=S, win_o=0, win_t=S, event_flags=TP_F_DISPATCH,
                       task_flags=rng.choice([0, TASK_F_EVERY_READ]), every_read_reset=rng.below(2), pause_after=rng.range(1, P // 2),
                       timeout_ms=rng.choice([0, 5000]), payload=rng.bytes(P), frags=fragments(rng, P, 80, [0, 100, 300])))
+    # A3: TCP loopback, peer aborts the connection (RST) after the payload: the error must be reported exactly once
+    for i in range(12 * scale):
+        S = rng.choice([16, 256, 4096])
+        P = rng.choice([0, 10, 700, 6000])
+        out.append(mk(rng, family="read-reset", S=S, win_o=0, win_t=S, event_flags=rng.choice([0, TP_F_DISPATCH]),
+                      task_flags=rng.choice([0, TASK_F_EVERY_READ]), every_read_reset=rng.below(2), use_tcp=1, close_mode=3,
+                      timeout_ms=rng.choice([0, 5000]), payload=rng.bytes(P), frags=fragments(rng, P, 500, [0, 100])))
     # B: stop in the middle of the stream; nothing may be delivered afterwards although the feeder keeps writing
     for i in range(20 * scale):
         S = rng.choice([8, 64, 512])
@@ -177,6 +184,13 @@ def check(sc, obs, part):
                 viol.append(("stream:read:end-of-stream-reported-%s" % ("never" if not eofs else "more-than-once"), "eof callbacks=%d" % len(eofs)))
             if timeouts:
                 viol.append(("stream:read:spurious-timeout", "timeouts=%d with 5 s budget" % len(timeouts)))
+        elif fam == "read-reset":
+            errs = [e for e in cbs if e[4] not in (0, ETIMEDOUT)]
+            if len(errs) != 1:
+                viol.append(("stream:read:connection-reset-reported-%s" % ("never" if not errs else "more-than-once"),
+                             "error callbacks=%d eof callbacks=%d delivered %d of %d" % (len(errs), len(eofs), len(stream), P)))
+            elif errs[0][4] not in (104, 32):
+                viol.append(("stream:read:connection-reset-wrong-error-code", "error=%d" % errs[0][4]))
         elif fam == "read-stop-midstream":
             if len(stream) < min(sc["stop_after"], P):
                 viol.append(("stream:read:stopped-early", "delivered %d, stop requested after %d" % (len(stream), sc["stop_after"])))
@@ -280,7 +294,7 @@ def run(tier):
     report.extra["scenario_families"] = fams
     report.assumptions = [
         "regular-file pread/pwrite tasks are not driven: epoll refuses regular files on Linux, so the rw handler is only reachable by the direct first-I/O path",
-        "socket resets (RST) are not produced on AF_UNIX socketpairs; error reporting is covered only through timeouts and EOF",
+        "socket errors are produced only as TCP loopback resets (SO_LINGER 0 close by the peer) on read tasks",
         "timeout verdicts use gaps >= 10x or <= 1/20 of the timeout and are re-run once before being reported",
     ]
     if report.extra.get("callbacks", 0) == 0:
